@@ -306,6 +306,10 @@ type batchOut struct {
 }
 
 func runWorker(bin string, j *job, workDir string, timeout time.Duration, race bool) *batchOut {
+	if race {
+		// pass-through scenarios: real parallelism is the point
+		return runWorkerWith(bin, j, workDir, timeout, "4", race)
+	}
 	return runWorkerWith(bin, j, workDir, timeout, "1", race)
 }
 
@@ -624,11 +628,55 @@ func clipJSON(v any, depth int) any {
 	return v
 }
 
+// raceSignature names the two conflicting accesses of a race report by the innermost frame of each
+// access stack ("race between <access> <func> and <access> <func>"); known findings are matched on it.
+func raceSignature(rep string) string {
+	var parts []string
+	lines := strings.Split(rep, "\n")
+	for i := 0; i < len(lines) && len(parts) < 2; i++ {
+		l := strings.TrimSpace(lines[i])
+		kind := ""
+		switch {
+		case strings.HasPrefix(l, "Read at"), strings.HasPrefix(l, "Previous read at"):
+			kind = "read"
+		case strings.HasPrefix(l, "Write at"), strings.HasPrefix(l, "Previous write at"):
+			kind = "write"
+		case strings.HasPrefix(l, "Atomic") || strings.HasPrefix(l, "Previous atomic"):
+			kind = "atomic"
+		}
+		if kind == "" {
+			continue
+		}
+		// innermost frame that is not a runtime / shim frame
+		fn := "?"
+		for k := i + 1; k < len(lines); k++ {
+			f := strings.TrimSpace(lines[k])
+			if f == "" {
+				break
+			}
+			if strings.HasPrefix(f, "/") || strings.HasPrefix(f, "runtime.") || strings.HasPrefix(f, "sync") || strings.Contains(f, "/zsim") {
+				continue
+			}
+			fn = strings.TrimSuffix(strings.TrimPrefix(f, "github.com/junegunn/fzf/src"), "()")
+			break
+		}
+		parts = append(parts, kind+" in "+fn)
+	}
+	if len(parts) == 2 {
+		if parts[1] < parts[0] {
+			parts[0], parts[1] = parts[1], parts[0]
+		}
+		return "race between " + parts[0] + " and " + parts[1]
+	}
+	return "race (unparsed report)"
+}
+
 func crashViolation(bo *batchOut) (violation, bool) {
 	// a worker died inside a run: a panic in a non-root goroutine, a fatal runtime error, or a race report
 	st := bo.stderr
 	if strings.Contains(st, "WARNING: DATA RACE") {
-		return violation{"race", tail(headFrom(st, "WARNING: DATA RACE"), 3000)}, true
+		rep := headFrom(st, "WARNING: DATA RACE")
+		return violation{"race", raceSignature(rep) + "\n" + tail(rep, 6000)}, true
 	}
 	idx := strings.Index(st, "panic:")
 	if idx < 0 {
@@ -684,7 +732,7 @@ func check(prop string, pc propCfg, tier string, base uint64, runsOv, secsOv int
 	bin, repoKey := ensureWorker(false)
 	var raceBin string
 	for _, sc := range pc.Scenarios {
-		if sc.Race && tier == "thorough" {
+		if sc.Race && raceBin == "" && (only == "" || only == sc.Name) {
 			raceBin, _ = ensureWorker(true)
 		}
 	}
@@ -712,9 +760,6 @@ func check(prop string, pc propCfg, tier string, base uint64, runsOv, secsOv int
 	var tasks []task
 	for _, sc := range pc.Scenarios {
 		if only != "" && sc.Name != only {
-			continue
-		}
-		if sc.Race && tier != "thorough" {
 			continue
 		}
 		n := sc.Quick
